@@ -13,7 +13,8 @@ From RU Require Import Base.Prelude Base.Utf8 Model.HostT Model.UrlRecord Model.
   Proofs.C06_Main Proofs.C02_Reach Proofs.C02_AuthParts Proofs.C02_AuthMain Proofs.C04_ParseTotal
   Proofs.C03_ReachParts Proofs.C03_Reach Proofs.C03_ReachFile Proofs.C03_ReachHost Proofs.C03_ReachHist
   Model.FilePath Proofs.C06_Path Proofs.C06_Host Proofs.C05_Enc Proofs.C03_ReachAll Proofs.C03_Reachability
-  Proofs.C03_ReachAscii Proofs.C03_ReachEx Proofs.C03_Views Proofs.C03_PortInv Proofs.C03_PortParse Proofs.C03_AuthEnd Proofs.C03_ReachKnown.
+  Proofs.C03_ReachAscii Proofs.C03_ReachEx Proofs.C03_Views Proofs.C03_PortInv Proofs.C03_PortParse Proofs.C03_AuthEnd Proofs.C03_ReachKnown
+  Proofs.C05_AuthOfs Proofs.C02_Hist Proofs.C02_SetHostCanon Proofs.C02_Reach3 Proofs.C03_ParseFront Proofs.C03_ReachJoin Proofs.C03_ReachFull.
 Open Scope string_scope.
 Open Scope N_scope.
 Open Scope list_scope.
@@ -356,15 +357,115 @@ Example C03_reachability_known_inhabited :
   /\ reach03k_example_stmt.
 Proof. split; [exact ex3_hyps | exact reach03k_example]. Qed.
 
-(* what separates C03_reachability from "every reachable Url" in the sense of C02 (Reachable: parse, join
-   against ANY reached base, all 19 mutators outside C02's known_step):
-   (1) base_ok of a reached base is a premise of reach03a's join (special => not cannot-be-a-base);
-   (2) auth_end_b u is part of excl03 for set_path / quirks set_pathname;
-   (3) the host half of excl03 is stated on the result (hosti u' = None) while Known_F_C02_4 is stated on the
-       argument (an empty text): for abstract host functions they differ;
-   (4) for path_segments_mut sessions on an authority-less record excl03 has path_bad, known_step only the marker.
-   (2) is discharged for histories without joins and file: texts (C03_reachability_known); (1) and the parser
-   half of (2) for join / file: results need an inversion of Parser::parse_url beyond wf_b. *)
+(* ---------- R4. joins and file: texts; the parser's invariants beyond wf_b ---------- *)
+(* inv03 u (Proofs/C03_ParseFront.v) = (wf_b u /\ host_text_ok u) /\ AS u /\ PN u /\ HE u:
+     AS (C05_AuthOfs): a special scheme is followed by "://" - hence base_ok: the record is a possible base;
+     PN: the stored port is not the default port of the stored scheme;
+     HE: with a special scheme the host text does not end in '/', a special scheme other than file has a host -
+         hence auth_end_ok.
+   EVERY record Parser::parse_url returns satisfies inv03 - any input, any encoding override, both builds, the file
+   scheme included - from a base that satisfies inv03 (no premise without a base).  Hypothesis: HostWf only. *)
+Theorem C03_parse_invariants : forall dbg hp hpo hd ovr base input u, HostWf hp hpo hd ->
+  match base with Some b => inv03 b | None => True end ->
+  parse_url dbg hp hpo hd ovr base input = POk u -> inv03 u.
+Proof. exact parse_url_inv03. Qed.
+Check C03_parse_invariants : forall dbg hp hpo hd ovr base input u, HostWf hp hpo hd ->
+  match base with Some b => (wf_b b = true /\ host_text_ok b) /\ AS b /\ PN b /\ HE b | None => True end ->
+  parse_url dbg hp hpo hd ovr base input = POk u -> (wf_b u = true /\ host_text_ok u) /\ AS u /\ PN u /\ HE u.
+Print Assumptions C03_parse_invariants.
+
+(* one call of any of the 19 mutators outside the KNOWN classes only (known03k: the call changed the record and
+   lies in excl03k = excl03 without the auth_end_b member) keeps inv03 *)
+Theorem C03_invariants_step : forall dbg hp hpo hd u o u', HostWf hp hpo hd -> NoEmpty hp -> IpWf hd ->
+  inv03 u -> op_args_ok o -> known03k u o u' = false -> apply_op dbg hp hpo hd u o = Some u' -> inv03 u'.
+Proof. intros dbg hp hpo hd u o u' HW HNE HIP. exact (inv03_step dbg hp hpo hd HW HNE HIP u o u'). Qed.
+Check C03_invariants_step : forall dbg hp hpo hd u o u', HostWf hp hpo hd -> NoEmpty hp -> IpWf hd ->
+  inv03 u -> op_args_ok o -> known03k u o u' = false -> apply_op dbg hp hpo hd u o = Some u' -> inv03 u'.
+Print Assumptions C03_invariants_step.
+
+(* reach03j dbg hp hpo hd (Proofs/C03_ReachJoin.v): Parser::parse_url without a base (ANY text, file: included),
+   against ANY reached record (no base_ok premise), Url::from_file_path / from_directory_path, and any sequence of
+   calls of the 19 mutators with known03k = false.  It contains reach03k and is contained in reach03a: the two
+   premises of reach03a that are not known findings - base_ok of a base, auth_end_b of a receiver - are invariants. *)
+Theorem C03_reachability_joins : forall dbg hp hpo hd, HostWf hp hpo hd -> NoEmpty hp -> IpWf hd ->
+  forall u, reach03j dbg hp hpo hd u ->
+  (wf_b u = true /\ host_text_ok u) /\ base_ok u = true /\ auth_end_ok u /\ PN u /\ reach03a dbg hp hpo hd u.
+Proof.
+  intros dbg hp hpo hd HW HNE HIP u R. destruct (reach03j_inv dbg hp hpo hd HW HNE HIP u R) as (K & A & P & E).
+  split; [exact K|]. split; [exact (as_base_ok u (proj1 K) A)|]. split; [exact (he_auth_end u K E)|].
+  split; [exact P | exact (reach03j_a dbg hp hpo hd HW HNE HIP u R)].
+Qed.
+Check C03_reachability_joins : forall dbg hp hpo hd, HostWf hp hpo hd -> NoEmpty hp -> IpWf hd ->
+  forall u, reach03j dbg hp hpo hd u ->
+  (wf_b u = true /\ host_text_ok u) /\ base_ok u = true /\ auth_end_ok u /\ PN u /\ reach03a dbg hp hpo hd u.
+Print Assumptions C03_reachability_joins.
+
+(* non-vacuity: parse "file://h/a/b", join "../c?q", set_path "x/../y", join "http://g:80/z" (80 is dropped),
+   join "//k:81" -> "http://k:81/" *)
+Example C03_reachability_joins_inhabited :
+  (HostWf ex_hp3 ex_hp ex_hd2 /\ NoEmpty ex_hp3 /\ IpWf ex_hd2) /\ reach03j_example_stmt.
+Proof.
+  destruct ex3_hyps as ((HRT & _) & HNE & HIP).
+  split; [split; [exact (HostRT_HostWf _ _ _ HRT) | split; assumption] | exact reach03j_example].
+Qed.
+
+(* ---------- R5. C02's quantifier ---------- *)
+(* Reachable3 dbg hp hpo hd (Proofs/C02_Reach3.v): parse and join of &str texts (against ANY reached record), every
+   call of the 19 mutators outside C02's known_step2 (= F-C03-5, F-C02-3, F-C02-2, F-C02-8, F-C02-4, F-C02-9),
+   Url::query_pairs_mut sessions; results in the drive-letter class are not continued.
+   known_step2 and excl03k differ in ONE class: a path_segments_mut session on an authority-less record without the
+   "/." marker whose result starts with "//" (in excl03k, not in known_step2).  SessNoSS dbg (Proofs/C03_ReachFull.v)
+   says there is no such session; it is a hypothesis of the partial theorem.  Everything else is proved: the host half
+   of excl03k (an empty host in front of a stored port) is refused by quirks::set_host / set_hostname themselves and
+   cannot come out of Url::set_host with a non-empty argument or set_ip_host (host_nonempty of C02: Host::parse never
+   returns the empty host, Host::parse_opaque only for the empty text); is_cbb = is_opaque_b; F-C02-8 = path_bad
+   without marker; query_pairs_mut keeps inv03.  HostOK / IpOK of C05 (displays stay in 0x21..0x7E): the session
+   theorem of C15 is about ASCII serializations. *)
+Definition C03_reachability_full_statement2 : Prop :=
+  forall dbg hp hpo hd, HostWf hp hpo hd -> host_nonempty hp hpo -> IpWf hd ->
+  C05_Parser.HostOK hp hpo hd -> C05_Setters.IpOK hd ->
+  forall u, Reachable3 dbg hp hpo hd u ->
+  (wf_b u = true /\ host_text_ok u) /\ base_ok u = true /\ auth_end_ok u /\ PN u.
+
+Theorem C03_known_classes : forall dbg hp hpo hd u o u', HostWf hp hpo hd -> host_nonempty hp hpo -> SessNoSS dbg ->
+  inv03 u -> op_args_ok o -> known_step2 dbg hp hpo hd u o = false ->
+  apply_op dbg hp hpo hd u o = Some u' -> known03k u o u' = false.
+Proof. intros dbg hp hpo hd u o u' HW HNE HSS. exact (known_k dbg hp hpo hd HW HNE HSS u o u'). Qed.
+Check C03_known_classes : forall dbg hp hpo hd u o u', HostWf hp hpo hd -> host_nonempty hp hpo -> SessNoSS dbg ->
+  inv03 u -> op_args_ok o -> known_step2 dbg hp hpo hd u o = false ->
+  apply_op dbg hp hpo hd u o = Some u' -> known03k u o u' = false.
+Print Assumptions C03_known_classes.
+
+Theorem C03_query_pairs_step : forall dbg u ops u', inv03 u -> Forall ok_or_space (ser u) -> Forall C15_Ser.op_ok ops ->
+  QueryPairs.query_pairs_session dbg u ops = Some u' -> inv03 u' /\ Forall ok_or_space (ser u').
+Proof. exact qpm_inv03. Qed.
+Print Assumptions C03_query_pairs_step.
+
+Theorem C03_reachability_full_partial : forall dbg hp hpo hd, HostWf hp hpo hd -> host_nonempty hp hpo -> IpWf hd ->
+  C05_Parser.HostOK hp hpo hd -> C05_Setters.IpOK hd -> SessNoSS dbg ->
+  forall u, Reachable3 dbg hp hpo hd u ->
+  (wf_b u = true /\ host_text_ok u) /\ base_ok u = true /\ auth_end_ok u /\ PN u.
+Proof.
+  intros dbg hp hpo hd HW HNE HIPW HOK HIP HSS u R.
+  destruct (reach3_inv dbg hp hpo hd HW HNE HIPW HOK HIP HSS u R) as [(K & A & P & E) _].
+  split; [exact K|]. split; [exact (as_base_ok u (proj1 K) A)|]. split; [exact (he_auth_end u K E) | exact P].
+Qed.
+Check C03_reachability_full_partial : forall dbg hp hpo hd, HostWf hp hpo hd -> host_nonempty hp hpo -> IpWf hd ->
+  C05_Parser.HostOK hp hpo hd -> C05_Setters.IpOK hd -> SessNoSS dbg ->
+  forall u, Reachable3 dbg hp hpo hd u ->
+  (wf_b u = true /\ host_text_ok u) /\ base_ok u = true /\ auth_end_ok u /\ PN u.
+Print Assumptions C03_reachability_full_partial.
+
+(* what separated C03_reachability from "every reachable Url" in the sense of C02 (first formulation, over
+   C02_Reach.Reachable with HostWf alone; kept as stated):
+   (1) base_ok of a reached base was a premise of reach03a's join          - now an invariant (AS, R4);
+   (2) auth_end_b u was part of excl03 for set_path / quirks set_pathname   - now an invariant (HE, R4);
+   (3) the host half of excl03 is stated on the result, Known_F_C02_4 on the argument - related in R5 under
+       host_nonempty (without it the statement below is false for abstract host functions: a Host::parse that
+       returns the empty host for a non-empty text makes set_host("x") on "http://h:81/" leave wf_b);
+   (4) for path_segments_mut sessions on an authority-less record excl03 has path_bad, known_step only the marker:
+       SessNoSS, the hypothesis of C03_reachability_full_partial.
+   The corrected statement is C03_reachability_full_statement2 (R5). *)
 Definition C03_reachability_full_statement : Prop :=
   forall dbg hp hpo hd, HostWf hp hpo hd -> forall u, Reachable dbg hp hpo hd u -> wf_b u = true.
 
@@ -476,8 +577,8 @@ Check C03_port_step : forall dbg hp hpo hd u o u', HostWf hp hpo hd -> IpDisp hd
 Print Assumptions C03_port_step.
 
 (* for every reached record, RELATIVE to ParsePN dbg hp hpo hd: "every record Parser::parse_url returns (from a
-   base that satisfies PN) satisfies PN" - true by inspection (parse_port normalises against the scheme being
-   parsed, parse_relative copies the port together with the scheme) but NOT proved: the full statement is *)
+   base that satisfies PN) satisfies PN" (parse_port normalises against the scheme being parsed, parse_relative
+   copies the port together with the scheme); the full statement, proved below (C03_port_never_default), is *)
 Definition C03_port_never_default_statement : Prop :=
   forall dbg hp hpo hd, HostWf hp hpo hd -> IpDisp hd -> forall u, reach03a dbg hp hpo hd u -> PN u.
 
@@ -492,6 +593,14 @@ Proof.
   - right. rewrite Hs in Hp. cbn in Hp. inversion Hp. split; reflexivity.
 Qed.
 Print Assumptions C03_port_never_default_partial.
+
+(* ParsePN is now proved in the form the histories need (Proofs/C03_ParseFront.v parse_url_pnr: the base satisfies
+   wf_b, bk and PN - what reach03a's join premise base_ok and the induction give): the full statement *)
+Theorem C03_port_never_default : C03_port_never_default_statement.
+Proof. exact reach03a_pn_all. Qed.
+Check C03_port_never_default : forall dbg hp hpo hd, HostWf hp hpo hd -> IpDisp hd ->
+  forall u, reach03a dbg hp hpo hd u -> PN u.
+Print Assumptions C03_port_never_default.
 
 (* without a hypothesis on the parser: reach03n dbg hp hpo hd (Proofs/C03_PortParse.v) = the part of reach03a whose
    histories start at Url::parse (no base) of a text with a scheme other than "file" (C02's four closed-form
